@@ -166,6 +166,16 @@ def sec_xs(rep):
     res = o.get_esf(name, kins[0])
     ok = res == ("esf", "F2_charm") and calls == [("F2_charm", "F2_charm", kins[0], (), {"use_raw": False})] and calls[0][2] is kins[0]
     rep.add(ob_eval("C11/CrossSection.get_esf/post", ok, detail=f"delegates with use_raw=False (TMC applies): {calls}"))
+    # history: the three structure functions of one point, then another point -- EVERY request goes to
+    # the manager of the structure function asked for (the manager's own hand-over to a sibling does
+    # not forward use_raw=False, so a remembered manager would silently drop the TMC of FL and F3)
+    del calls[:]
+    seq = [("F2", kins[0]), ("FL", kins[0]), ("F3", kins[0]), ("F2", kins[1]), ("F3", kins[1]), ("FL", kins[0])]
+    got = [o.get_esf(H.obs_name(k, "charm"), kin) for k, kin in seq]
+    exp_calls = [(f"{k}_charm", f"{k}_charm", kin, (), {"use_raw": False}) for k, kin in seq]
+    ok = got == [("esf", f"{k}_charm") for k, _ in seq] and calls == exp_calls and all(c[2] is e[2] for c, e in zip(calls, exp_calls))
+    rep.cases += 1
+    rep.add(ob_eval("C11/CrossSection.get_esf/history(F2, FL, F3 of one point, then other points): each request reaches the manager of the structure function asked for, with use_raw=False", ok, detail=f"(manager, requested) = {[(c[0], c[1], c[4]) for c in calls]}", inputs={} if ok else {"sequence": str([k for k, _ in seq]), "observed (manager, requested, kwargs)": str([(c[0], c[1], c[4]) for c in calls])}, replay={"confirmed": True, "python": "CrossSection(XSHERANC_charm, runner).get_esf(F2_charm, kin); .get_esf(FL_charm, kin); ..."}))
     o.exss = [type("E", (), {"get_result": lambda self, i=i: i})() for i in range(3)]
     rep.add(ob_eval("C11/CrossSection.get_result/post", o.get_result() == [0, 1, 2]))
 
